@@ -5,6 +5,7 @@ import (
 	"encoding/json"
 	"fmt"
 	"io"
+	"math"
 	"reflect"
 	"strings"
 	"time"
@@ -428,6 +429,9 @@ func runC07(x *X) {
 		{marshalerItem{"m"}, "Marshaler"}, {textMarshalerItem{"t"}, "TextMarshaler"},
 		{tabular.NewCell("inner"), "nested Cell"}, {tabular.NewCell(tabular.NewCell(5)), "nested Cell depth 2"},
 		{make(chan int), "chan (unencodable)"}, {struct{}{}, "struct{}"}, {[]interface{}{}, "empty slice"}, {"é\"\\\n<&>", "hostile string"}, {"\x1b\x00\x7f\v\u2028\U000E0001", "control-character string"},
+		{int64(math.MaxInt64), "MaxInt64"}, {uint64(math.MaxUint64), "MaxUint64"}, {1e21, "1e21"}, {math.Copysign(0, -1), "-0.0"},
+		{math.NaN(), "NaN (unencodable)"}, {math.Inf(1), "+Inf (unencodable)"}, {int8(-128), "int8 min"}, {float32(0.1), "float32 0.1"},
+		{strings.Repeat("x", 300) + "\"", "300-byte string"}, {json.RawMessage(`{"raw":[1,2]}`), "RawMessage"}, {json.Number("12345678901234567890"), "json.Number"},
 	}
 	x.Explore("items", ExploreOpts{ShardDepth: 2, Bound: fmt.Sprintf("%d item kinds x %d item kinds (two columns) x skipable default on/off", len(items), len(items))}, func(c *Chooser) {
 		a, b := items[c.Choose(len(items))], items[c.Choose(len(items))]
@@ -442,6 +446,23 @@ func runC07(x *X) {
 		c07Run(x, c, t, []string{"items_family"})
 	})
 
+	// long header texts and long values
+	long := LongTexts(`"`)
+	x.Explore("long-texts", ExploreOpts{ShardDepth: 1, Bound: fmt.Sprintf("%d long texts (63..1025 bytes, quote in the middle/at the end, multi-byte, 40 lines) as header and as value", len(long))}, func(c *Chooser) {
+		s := long[c.Choose(len(long))]
+		asHeader := c.Bool()
+		t := &c07Table{hasHeader: true, header: []string{"k1", "k2"}, skip: map[int]interface{}{}}
+		if asHeader {
+			t.header[1] = s
+			t.rows = [][]c07Cell{{{"v", "str"}, {1, "int"}}}
+		} else {
+			t.rows = [][]c07Cell{{{s, "long string"}, {s, "long string"}}}
+		}
+		t.desc = fmt.Sprintf("long text of %d bytes as header=%v", len(s), asHeader)
+		x.Transition(1)
+		x.Nontrivial(t.desc + fmt.Sprint(hashStr(s)))
+		c07Run(x, c, t, []string{"long_text"})
+	})
 	// (d) headers
 	hpool := []string{"a", `"`, `\`, "\n", "<&>", "é", " ", "a", "", "\x1b[1m", "\x00", "\x7f", "\u2028", "\U000E0001", "\t\v\b"}
 	x.Explore("headers", ExploreOpts{ShardDepth: 2, Bound: "header none / 0..3 texts from a 15-pool (incl. a duplicate, an empty one, control and non-printable characters) x rows of 0..3 cells"}, func(c *Chooser) {
